@@ -16,7 +16,8 @@ for seed in [int(s) for s in a.seeds.split(',')]:
         try:
             ev = json.load(open('/tmp/sweep-evidence/%d/%s.json' % (seed, pid)))['coverage']
             mod = importlib.import_module('vlib.props.' + pid.lower())
-            fl = getattr(mod, 'FLOORS', {}).get(a.tier, {})
+            fl = getattr(mod, 'FLOORS', {}).get('quick', {})
+            if a.tier == 'thorough': fl = {k: 2 * v for k, v in fl.items()}
             ratios = []
             for k, f in fl.items():
                 have = ev['oracle_clauses_held'].get(k, ev['input_classes'].get(k, 0))
